@@ -130,6 +130,7 @@ func checkC07(p *Prog, r *Report) {
 	sessionSelection(p, r, "C07.session-args")
 	poolUse(p, r, "C07.pool-use")
 	useReply(p, r, "C07.use-reply")
+	useNeverForwarded(p, r, "C07.use-never-forwarded")
 	guardedBy1(p, r, "C07.session-table", []guardSpec{{"proxy", "Proxy", "sessions", "sessionsMu"}})
 }
 
@@ -667,8 +668,47 @@ func useReply(p *Prog, r *Report, rule string) {
 	r.check(len(bad) == 0 && n == 1, rule, cr.intercept.Name()+":SetKeyspaceResult", p.Pos(cr.intercept.Pos()), "", strings.Join(bad, " || "))
 }
 
-
 // cfgPath: the field path reads <something>.config[.SessionConfig].<field>
 func cfgPath(path, field string) bool {
 	return strings.Contains(path, ".config.") && strings.HasSuffix(path, "."+field)
+}
+
+// useNeverForwarded: a statement that starts with USE is the proxy's business whatever follows.
+// Forwarded like an ordinary query it runs on a pooled backend connection that every client of the
+// same session shares, and switches the keyspace of that connection for all of them.
+func useNeverForwarded(p *Prog, r *Report, rule string) {
+	r.Rule(rule, "the parser entry reports every statement whose first token is USE as handled (with the statement, or with an error that is sent to the client): no path hands it back as 'not handled', which would forward it to a backend connection shared with other clients")
+	hq := p.Func("parser", "IsQueryHandled")
+	lex := p.Named("parser", "lexer")
+	tkUse := p.constOf("parser", "tkUse")
+	s := newSim(p)
+	s.MaxNodes = 60000
+	s.Inline = func(f *ssa.Function) bool {
+		return pkgOfFn(f) == pkgOfFn(hq) && f.Parent() == nil && !isGeneratedLexer(f) && recvNamed(f) == nil && onlyCalledFrom(p, f, hq, 2) && f.Signature.Results().Len() == hq.Signature.Results().Len()
+	}
+	s.Model = func(sm *Sim, st *State, call ssa.CallInstruction, callee *ssa.Function) []*State {
+		if callee != nil && isGeneratedLexer(callee) && recvNamed(callee) == lex {
+			if st.aux["first"] == "" {
+				st.aux["first"] = "1"
+				SetCallResult(st, call, avC(tkUse))
+			} else {
+				SetCallResult(st, call, top)
+			}
+			return []*State{st}
+		}
+		return nil
+	}
+	var bad []string
+	n := 0
+	for _, o := range s.Run(hq, newState()) {
+		if o.Panic {
+			continue
+		}
+		n++
+		if h, known := o.Ret.elem(0).isBool(); !known || !h {
+			bad = append(bad, fmt.Sprintf("a statement that starts with USE is reported as not handled (path ending at %s): it is forwarded to a pooled backend connection and changes the keyspace of every client that shares it", p.Pos(o.Pos)))
+		}
+	}
+	r.count("sim_states", s.Nodes)
+	r.check(len(bad) == 0 && n > 0, rule, "parser.IsQueryHandled[USE]", p.Pos(hq.Pos()), fmt.Sprintf("%d paths, all handled", n), strings.Join(dedupe(bad), " || "))
 }
